@@ -168,29 +168,10 @@ def inject_class(spec, log):
     site = inj["site"]
     if site == "render":
         pos = next((i for i, e in enumerate(log) if e["site"] == "inject"), None)
-        if inj["k"] == 0:
-            site = "render-initial"
-        elif pos is not None and _inside_input(log, pos):
-            site = "render-in-input"
-        else:
-            site = "render-idle"
+        via = log[pos - 1].get("via", "other") if pos else "unreached"
+        first = pos is not None and not any(e["site"] == "flush" for e in log[:pos])
+        site = "render-initial" if first else {"input": "render-in-input", "idle": "render-idle", "screenloop": "render-idle"}.get(via, f"render-{via}")
     return f"{site}:{inj['kind']}"
-
-
-def _inside_input(log, pos):
-    """is log[pos] between a widget-callback entry and its 'ret' (render triggered from input handling)?"""
-    for i in range(pos - 1, -1, -1):
-        s = log[i]["site"]
-        if s == "ret":
-            return False
-        if s in ("keypress", "mouse", "unhandled", "filter"):
-            # filter has no ret; a render directly after filter (no widget call yet) happens in PopUpTarget
-            return True
-        if s in ("alarm", "pipe", "file", "flush", "step"):
-            if s in ("flush",):
-                return False
-            continue
-    return False
 
 
 def expected_keys(spec):
@@ -226,6 +207,7 @@ def judge(spec, res, ctx):  # noqa: C901, PLR0912, PLR0915
     i = 0
     ord_broken = False
     cur = None  # input event being delivered
+    cur_unh = None
     stage = None  # None | 'widget-called' | 'need-unhandled' | 'unhandled-called'
     for e in events:
         s = e["site"]
